@@ -206,6 +206,17 @@ def compressAll (l : Lib) (s : CState) : List Bytes → CState
   | [] => s
   | m :: t => compressAll l (cstep l (cstep l (cstep l s .reset) (.write m)) .close) t
 
+/-- the `Write` calls by which one message reaches the compressor: one call, one per byte,
+the chunks of an `io.Copy`, or NONE at all (`bytes.Buffer.WriteTo` on an empty message) -/
+def writeChunks (l : Lib) (s : CState) (cs : List Bytes) : CState :=
+  cs.foldl (fun s c => cstep l s (.write c)) s
+
+/-- a pooled compressor used for a list of messages, each handed over as a list of chunks:
+`Reset(dst); Write(c₁); …; Write(cₖ); Close()` (k ≥ 0) -/
+def compressVia (l : Lib) (s : CState) : List (List Bytes) → CState
+  | [] => s
+  | cs :: t => compressVia l (cstep l (writeChunks l (cstep l s .reset) cs) .close) t
+
 /-! ## construction in an environment
 
 What the process may use when an instance is constructed.  None of the constructors of
